@@ -102,7 +102,7 @@ func c16Server(kind string, steps []c16SStep) (obs []c16SObs, broken string) {
 		}
 		srv := mcp.NewServer("verif-name", "9.8.7", opts...)
 		ts := httptest.NewServer(srv.Handler())
-		defer ts.Close()
+		defer closeTS(ts)
 		regPrompt = func() { srv.RegisterPrompt(&mcp.Prompt{Name: "p1"}, promptH) }
 		regResource = func() { srv.RegisterResource(&mcp.Resource{URI: "r://x", Name: "x"}, resH) }
 		regResources = func() { srv.RegisterResources(&mcp.Resource{URI: "r://x", Name: "x"}, resHs) }
@@ -123,7 +123,7 @@ func c16Server(kind string, steps []c16SStep) (obs []c16SObs, broken string) {
 	case "legacy":
 		srv := mcp.NewSSEServer("verif-name", "9.8.7", mcp.WithSSEServerLogger(silentLogger{}), mcp.WithKeepAlive(false))
 		ts := httptest.NewServer(srv)
-		defer func() { ts.CloseClientConnections(); ts.Close() }()
+		defer func() { closeClientConns(ts); closeTS(ts) }()
 		regPrompt = func() { srv.RegisterPrompt(&mcp.Prompt{Name: "p1"}, promptH) }
 		regResource = func() { srv.RegisterResource(&mcp.Resource{URI: "r://x", Name: "x"}, resH) }
 		regResources = func() { srv.RegisterResources(&mcp.Resource{URI: "r://x", Name: "x"}, resHs) }
@@ -370,7 +370,7 @@ func c16ClientWalk(kind string, steps []c16CStep) (obs []c16CObs, broken string)
 	case "streamable", "sse":
 		rec := &c16Rec{outcome: outcomes, legacy: kind == "sse"}
 		ts := httptest.NewServer(http.HandlerFunc(rec.serve))
-		cleanup = func() { ts.CloseClientConnections(); ts.Close() }
+		cleanup = func() { closeClientConns(ts); closeTS(ts) }
 		wire = func() int { return int(atomic.LoadInt32(&rec.reqs)) }
 		var err error
 		if kind == "sse" {
